@@ -22,6 +22,16 @@
 //   VCOR n lambda mu sigma0 seed fid steps                (VDCMA::updateStrategyParameters)
 //      -> per step "VU same=<0|1> | n lambda mu | cC c1 cMu cSigma dSigma muEff | counter sigma | mean | D | vn | normv | pc | ps | weights
 //                   | offspring fit;x;y .. | sigma' | mean' | D' | vn' | normv' | pc' | ps' | best | bestpoint"
+//   NM n fid scale steps reinit s_1..s_n                 (SimplexDownhill replayed step by step; s = start point, hex or decimal)
+//      -> "NI | p0 | start | simplex val;pt .. | best val;pt | evals val;pt .. | fchk | vc"      (init; p0 = m_best.point before init)
+//         per step "NS | simplex pre | best pre | evals | simplex post | best post | fchk | vc"
+//         (evals = every objective call of the step in order; fchk = objective at the reported point; vc = 1 iff every vertex value
+//          equals the objective at the vertex).  reinit = 1: the object first completes a short run on another objective.
+//   XCOR n lambda mu var0 kind a b seed fid steps          (CrossEntropyMethod; kind 0 default noise, 1 ConstantNoise(a), 2 LinearNoise(a,b))
+//      -> per step "XU same=<0|1> rinv=<0|1> | n lambda mu | kind a b | counter | mean | var | z_1 .. z_lambda | offspring fit;x ..
+//                   | mean' | var' | best | bestpoint | fchk"     ("| EXC" replaces the post part if the selection throws)
+//         same: step() == sampling + PenalizingEvaluator + ElitistSelection + counter++ + updateStrategyParameters + m_best by hand;
+//         rinv: ElitistSelection on 4*fitness selects the same individuals in the same order; z = the standard normal draws
 #include <cstdio>
 #include <cstdlib>
 #include <cstring>
@@ -110,6 +120,12 @@ struct Obj : public SingleObjectiveFunction {
 		case 4: s = x(0) * x(0); for (std::size_t i = 1; i < n; ++i) s += 1024.0 * x(i) * x(i); return s;
 		case 5: for (std::size_t i = 0; i < n; ++i) s -= x(i); return s;
 		case 6: for (std::size_t i = 0; i < n; ++i) s += x(i) * x(i); return std::sqrt(std::sqrt(s));
+		// objectives of the NM / XCOR streams only (ties, plateaus, constants, values beyond the 1e100 literal of SimplexDownhill::init)
+		case 8: for (std::size_t i = 0; i < n; ++i) s += x(i) * x(i); return std::floor(s);
+		case 9: return 1.0;
+		case 10: for (std::size_t i = 0; i < n; ++i) s += x(i) * x(i); return 1e150 * (1.0 + s);
+		case 11: for (std::size_t i = 0; i < n; ++i) s = std::max(s, std::fabs(x(i))); return s;
+		case 12: for (std::size_t i = 0; i < n; ++i) s += std::fabs(x(i) - 0.25); return s;
 		}
 		return 0;
 	}
@@ -436,6 +452,114 @@ static void doVcor(std::istringstream& is, std::ostream& out) {
 	out << "END\n";
 }
 
+// ------------------------------------------------------------------------------------------------ SimplexDownhill, step by step
+struct LogObj : public Obj {
+	mutable std::vector<std::pair<RealVector, double> > log;
+	LogObj(int f, std::size_t nn, double s) : Obj(f, nn, s) {}
+	double eval(RealVector const& x) const { double v = Obj::eval(x); log.push_back(std::make_pair(x, v)); return v; }
+};
+static std::string hve(RealVector const& p) { return p.size() ? hv(p) : std::string("-"); }
+static std::string solStr(double v, RealVector const& p) { return hx(v) + ";" + hve(p); }
+static std::string simplexStr(SimplexDownhill const& o) {
+	std::string s;
+	for (std::size_t j = 0; j < o.m_simplex.size(); ++j) { if (j) s += " "; s += solStr(o.m_simplex[j].value, o.m_simplex[j].point); }
+	return s;
+}
+static std::string logStr(LogObj const& f) {
+	std::string s;
+	for (std::size_t j = 0; j < f.log.size(); ++j) { if (j) s += " "; s += solStr(f.log[j].second, f.log[j].first); }
+	return s;
+}
+static int vertexConsistent(SimplexDownhill const& o, Obj const& f) {
+	for (std::size_t j = 0; j < o.m_simplex.size(); ++j) if (!(o.m_simplex[j].value == f.spec(o.m_simplex[j].point))) return 0;
+	return 1;
+}
+static void doNm(std::istringstream& is, std::ostream& out) {
+	std::size_t n; int fid; double scale; int steps, reinit;
+	is >> n >> fid >> scale >> steps >> reinit;
+	RealVector start(n);
+	for (std::size_t i = 0; i < n; ++i) { std::string tok; is >> tok; start(i) = std::strtod(tok.c_str(), 0); }
+	try {
+		LogObj f(fid, n, scale);
+		SimplexDownhill o;
+		if (reinit) { Obj pre(0, n, 1.0); RealVector ps(n, 2.0); o.init(pre, ps); for (int t = 0; t < 3; ++t) o.step(pre); }
+		out << "NI | " << hve(o.m_best.point) << " | " << hv(start);
+		o.init(f, start);
+		out << " | " << simplexStr(o) << " | " << solStr(o.m_best.value, o.m_best.point) << " | " << logStr(f)
+		    << " | " << (o.m_best.point.size() == n ? hx(f.spec(o.m_best.point)) : std::string("nopoint")) << " | " << vertexConsistent(o, f) << "\n";
+		for (int t = 0; t < steps; ++t) {
+			f.log.clear();
+			out << "NS | " << simplexStr(o) << " | " << solStr(o.m_best.value, o.m_best.point);
+			o.step(f);
+			out << " | " << logStr(f) << " | " << simplexStr(o) << " | " << solStr(o.m_best.value, o.m_best.point)
+			    << " | " << (o.m_best.point.size() == n ? hx(f.spec(o.m_best.point)) : std::string("nopoint")) << " | " << vertexConsistent(o, f) << "\n";
+		}
+	} catch (std::exception const& e) { out << "EXC " << e.what() << "\n"; }
+	out << "END\n";
+}
+
+// ------------------------------------------------------------------------------------------------ CrossEntropyMethod, step by step
+static bool sameCem(CrossEntropyMethod const& a, CrossEntropyMethod const& b) {
+	return a.m_counter == b.m_counter && sameVec(a.m_mean, b.m_mean) && sameVec(a.m_variance, b.m_variance)
+	    && a.solution().value == b.solution().value && sameVec(a.solution().point, b.solution().point);
+}
+static void doXcor(std::istringstream& is, std::ostream& out) {
+	std::size_t n, lambda, mu; double var0, na, nb; int kind; unsigned seed; int fid, steps;
+	is >> n >> lambda >> mu >> var0 >> kind >> na >> nb >> seed >> fid >> steps;
+	try {
+		Obj f(fid, n, 1.0), g(fid, n, 1.0);
+		random::globalRng.seed(seed + 7919);
+		RealVector start = f.proposeStartingPoint();
+		random::globalRng.seed(seed);
+		CrossEntropyMethod o;
+		if (kind == 1) o.setNoiseType(new CrossEntropyMethod::ConstantNoise(na));
+		if (kind == 2) o.setNoiseType(new CrossEntropyMethod::LinearNoise(na, nb));
+		o.init(f, start, (unsigned)lambda, (unsigned)mu, RealVector(n, var0));
+		typedef CrossEntropyMethod::IndividualType IndividualType;
+		for (int t = 0; t < steps; ++t) {
+			CrossEntropyMethod b(o);                             // twin (shares the immutable noise object)
+			random::rng_type saved = random::globalRng;
+			std::ostringstream l;
+			l << " | " << n << " " << b.m_populationSize << " " << b.m_selectionSize << " | " << kind << " " << hx(na) << " " << hx(nb)
+			  << " | " << b.m_counter << " | " << hv(b.m_mean) << " | " << hv(b.m_variance) << " |";
+			// the standard normal draws the sampling loop consumes
+			for (std::size_t i = 0; i < lambda; ++i) { RealVector z(n); for (std::size_t j = 0; j < n; ++j) z(j) = random::gauss(random::globalRng, 0, 1); l << " " << hv(z); }
+			l << " |";
+			random::globalRng = saved;
+			// CrossEntropyMethod::step by hand on the twin
+			std::vector<IndividualType> off(b.m_populationSize);
+			PenalizingEvaluator ev;
+			for (std::size_t i = 0; i < off.size(); ++i) {
+				RealVector sample(n);
+				for (std::size_t j = 0; j < n; ++j) sample(j) = random::gauss(random::globalRng, b.m_mean(j), b.m_variance(j));
+				off[i].searchPoint() = sample;
+			}
+			ev(g, off.begin(), off.end());
+			for (std::size_t i = 0; i < off.size(); ++i) l << " " << hx(off[i].unpenalizedFitness()) << ";" << hv(off[i].searchPoint());
+			bool bThrew = false, aThrew = false; int rinv = 1;
+			try {
+				std::vector<IndividualType> parents(b.m_selectionSize), parents4(b.m_selectionSize);
+				ElitistSelection<IndividualType::FitnessOrdering> selection;
+				selection(off.begin(), off.end(), parents.begin(), parents.end());
+				std::vector<IndividualType> off4(off);
+				for (std::size_t i = 0; i < off4.size(); ++i) off4[i].unpenalizedFitness() *= 4.0;
+				selection(off4.begin(), off4.end(), parents4.begin(), parents4.end());
+				for (std::size_t i = 0; i < parents.size(); ++i) if (!sameVec(parents[i].searchPoint(), parents4[i].searchPoint())) rinv = 0;
+				b.m_counter++;
+				b.updateStrategyParameters(parents);
+				b.m_best.point = parents[0].searchPoint();
+				b.m_best.value = parents[0].unpenalizedFitness();
+			} catch (std::exception const&) { bThrew = true; }
+			random::globalRng = saved;
+			try { o.step(f); } catch (std::exception const&) { aThrew = true; }
+			if (bThrew) { out << "XU same=" << (aThrew ? 1 : 0) << " rinv=1" << l.str() << " | EXC\n"; break; }
+			l << " | " << hv(o.m_mean) << " | " << hv(o.m_variance) << " | " << hx(o.solution().value) << " | " << hv(o.solution().point) << " | " << hx(f.spec(o.solution().point));
+			out << "XU same=" << ((!aThrew && sameCem(o, b)) ? 1 : 0) << " rinv=" << rinv << l.str() << "\n";
+		}
+	} catch (std::exception const& e) { out << "EXC " << e.what() << "\n"; }
+	out << "END\n";
+}
+
 // CH n alpha beta L[n*n row major, lower triangular] v[n]  ->  "CH L'[n*n]"  |  "CH EXC"
 // remora cholesky_decomposition::update(alpha, beta, v) through MultiVariateNormalDistributionCholesky::rankOneUpdate.
 // The factor is installed by setCovarianceMatrix(L L^T); the generator only uses small integer entries with powers of two on the
@@ -498,6 +622,8 @@ int main(int argc, char** argv) {
 		else if (cmd == "CCOR") doCcor(is, out);
 		else if (cmd == "VCOR") doVcor(is, out);
 		else if (cmd == "CH") doChol(is, out);
+		else if (cmd == "NM") doNm(is, out);
+		else if (cmd == "XCOR") doXcor(is, out);
 		else out << "?\n";
 		std::cout << out.str() << std::flush;
 	}
